@@ -541,6 +541,77 @@ func c16LargeValueOnMMap(r *rng, tier string, res *Result) {
 			Impl: []string{clip(what)}, Expected: []string{"the value, byte for byte"}, Program: []string{"open (default options)", "put small x", "put big <130 MiB>", "get big", "close", "open", "get big"}})
 	}
 	res.Tags["large_value_round_trips_on_osmmap"]++
+	if tier == "thorough" {
+		c16MaxSizeRecovery(tmp, res)
+	}
+}
+
+// c16MaxSizeRecovery (thorough tier and the search for a failing input; about 2 GB of memory for some
+// seconds): the largest legal record -- a value of exactly MaxValueLength under a 100-byte key --
+// round-trips, also across an unclean restart (recovery re-reads the record from the segment).
+func c16MaxSizeRecovery(tmp string, res *Result) {
+	dir := filepath.Join(tmp, "max")
+	what := ""
+	key := []byte(strings.Repeat("k", 100))
+	func() {
+		defer func() {
+			if rec := recover(); rec != nil {
+				what = fmt.Sprint("panic: ", rec)
+			}
+		}()
+		big := make([]byte, pogreb.MaxValueLength)
+		for i := 0; i < len(big); i += 4096 {
+			big[i] = byte(i >> 12)
+		}
+		big[len(big)-1] = 0x7e
+		db, err := pogreb.Open(dir, nil)
+		if err != nil {
+			what = "open: " + err.Error()
+			return
+		}
+		_ = db.Put([]byte("before"), []byte("x"))
+		if err := db.Put(key, big); err != nil {
+			what = "put of a value of MaxValueLength bytes: " + err.Error()
+			_ = db.Close()
+			return
+		}
+		big = nil
+		_ = db.Put([]byte("after"), []byte("y"))
+		if err := db.Close(); err != nil {
+			what = "close: " + err.Error()
+			return
+		}
+		// unclean: the lock file is back
+		if f, err := os.OpenFile(filepath.Join(dir, "lock"), os.O_CREATE|os.O_RDWR, 0644); err == nil {
+			_, _ = f.WriteAt([]byte{1}, 0)
+			_ = f.Close()
+		}
+		runtime.GC()
+		db, err = pogreb.Open(dir, nil)
+		if err != nil {
+			what = "recovering open: " + err.Error()
+			return
+		}
+		defer db.Close()
+		if c := db.Count(); c != 3 {
+			what = fmt.Sprintf("after recovery Count() = %d, want 3", c)
+			return
+		}
+		v, err := db.Get(key)
+		if err != nil || len(v) != pogreb.MaxValueLength || v[len(v)-1] != 0x7e || v[4096*77] != 77 {
+			what = fmt.Sprintf("after recovery Get(<100-byte key>) returns %d bytes, err %v; stored %d bytes", len(v), err, pogreb.MaxValueLength)
+			return
+		}
+		if a, _ := db.Get([]byte("after")); string(a) != "y" {
+			what = fmt.Sprintf("after recovery Get(after) = %q: the record behind the maximal one is lost", a)
+		}
+	}()
+	if what != "" {
+		res.Findings = append(res.Findings, &Finding{Kind: "spec", Case: "C16/max-size-recovery", Cmd: "value of MaxValueLength bytes under a 100-byte key, unclean restart (fs.OSMMap)",
+			Impl: []string{clip(what)}, Expected: []string{"the record round-trips byte-exactly, also across recovery"},
+			Program: []string{"open (default options)", "put before x", "put <100-byte key> <512 MiB>", "put after y", "close", "re-create the lock file", "open (recovery)", "count; get"}})
+	}
+	res.Tags["max_size_record_recoveries"]++
 }
 
 // cBackgroundDuringRecovery: a database opened with background compaction (and sync) enabled, after
